@@ -169,8 +169,8 @@ def run_one(lane_id, job):
         rec["status"] = "survived"
         rec["checks"] = {}
         for p in props:
-            code, out = sh(f"./check {p} quick 2>&1 | grep -E '^(VIOLATION|INCONCLUSIVE)|FAILED' | head -2", cwd=f"{lane}/verif", timeout=2400)
-            if "VIOLATION" in out:
+            code, out = sh(f"./check {p} quick 2>&1 | grep -E '^(VIOLATION|INCONCLUSIVE)|FAILED' | head -4", cwd=f"{lane}/verif", timeout=2400)
+            if "VIOLATION" in out or "FAILED" in out:
                 rec["checks"][p] = "killed: " + out.strip()[:300]
                 rec["status"] = "killed-by-check"
                 break
